@@ -262,7 +262,20 @@ func lattice2(r *vlib.Run) {
 		}
 		small := 0.03 + 0.04*rng.Float64()
 		big := small * float64(2+rng.Intn(3))
-		mesh := model2d.MarchingSquaresC2F(s, big, small, 0, rng.Intn(4))
+		iters := rng.Intn(4)
+		if c.Index%3 == 2 {
+			// large coarse/fine ratios on a shape with sharp corners
+			ratio := []int{8, 16, 32, 64}[rng.Intn(4)]
+			big = 0.3 + 0.1*rng.Float64()
+			small = big / float64(ratio)
+			s = model2d.NewRect(ctr, ctr.Add(model2d.XY(1+rng.Float64(), 1+rng.Float64())))
+			holes = 0
+			if rng.Intn(2) == 0 {
+				iters = 0
+			}
+			c.Count("ms.c2f.meshes_with_ratio_8_to_64", 1)
+		}
+		mesh := model2d.MarchingSquaresC2F(s, big, small, 0, iters)
 		segs := vlib.Segs(mesh)
 		topo := vlib.AnalyzeSegs(segs)
 		c.Count("ms.c2f.meshes", 1)
